@@ -165,11 +165,11 @@ class DLISFile:
                 ]
             )
 
+        # number of logical records which will be yielded by the generator (see 'generator'): per logical file
+        # the file header, one record per EFLR set, the frame data records and the no-format data records
         n = 0
-        for eflr_set_type in self._eflr_sets:
-            n += len(list(self._eflr_sets.get_all_items_for_set_type(eflr_set_type)))
-
         for idx_lf, logical_file in enumerate(self.logical_files):
+            n += 1 + sum(len(set_dict) for set_dict in logical_file._eflr_sets.values())
             for mfd in multi_frame_data_objects[idx_lf]:
                 n += len(mfd)
             n += len(logical_file._no_format_frame_data)
